@@ -174,6 +174,9 @@ impl Client {
                 let error_msg = e.to_string();
                 let error = AnyTlsError::Protocol(error_msg.clone());
                 stream.close_with_error(error).await;
+                // The open was refused but the session is fine: end the stream and give
+                // the session back instead of abandoning it
+                self.abandon_stream(&session, stream_id).await;
                 Err(AnyTlsError::Protocol(error_msg))
             }
             Ok(Err(_)) => {
@@ -192,9 +195,26 @@ impl Client {
                     format!("SYNACK timeout after {}s", DEFAULT_SYNACK_TIMEOUT.as_secs());
                 let error = AnyTlsError::Protocol(error_msg.clone());
                 stream.close_with_error(error).await;
+                self.abandon_stream(&session, stream_id).await;
                 Err(AnyTlsError::Protocol(error_msg))
             }
         }
+    }
+
+    /// A stream that was opened but never became usable: tell the server it is over and
+    /// return the (still healthy) session to the pool, so that a failed open neither
+    /// leaks the session nor forces the next request to dial a new connection.
+    async fn abandon_stream(&self, session: &Arc<Session>, stream_id: u32) {
+        if session.is_closed() {
+            return;
+        }
+        let _ = session
+            .write_control_frame(crate::protocol::Frame::control(
+                crate::protocol::Command::Fin,
+                stream_id,
+            ))
+            .await;
+        self.release_session(Arc::clone(session)).await;
     }
 
     /// Create a new stream by establishing or reusing a session
